@@ -370,6 +370,9 @@ namespace BitSerializer::Csv::Detail
 					// When reached end of file
 					if (result == Convert::Utf::EncodedStreamReadResult::EndFile)
 					{
+						if (mEncodedStreamReader.IsFailed()) {
+							throw SerializationException(SerializationErrorCode::InputOutputError, "Unable to read from the input stream");
+						}
 						endValuePos = mDecodedBuffer.size();
 						isEndLine = true;
 						break;
